@@ -249,6 +249,11 @@ func checkRoundTrip(s Session, r *sessRun) *Violation {
 			v.Tag = "precision-shifts-list-context"
 			return v
 		}
+		if where14(p, e)[:6] == "top-v1" && s.RT.Arrays != "list" && v1HashAliasing(s, cmpMode{Arrays: s.RT.Arrays, Eps: s.RT.Eps}) {
+			v := viol14("round-trip-status", p, e, "v1 library, arrays as %s: two different array members have the same v1 hash code, the diff addresses one through the other's identity: `jd %s` then `jd %s` failed with status %d: %s", s.RT.Arrays, strings.Join(s.Procs[0].Argv, " "), strings.Join(p.Argv, " "), res.Code, show(maskStamp(res.Stderr)))
+			v.Tag = "v1-set-hash-aliasing"
+			return v
+		}
 		return viol14("round-trip-status", p, e, "applying the output of `jd %s` with `jd %s` failed with status %d: %s", strings.Join(s.Procs[0].Argv, " "), strings.Join(p.Argv, " "), res.Code, show(maskStamp(res.Stderr)))
 	}
 	f := parseArgv(p.Argv)
@@ -627,13 +632,13 @@ func v1HashAliasing(s Session, m cmpMode) bool {
 			continue
 		}
 		for _, c := range containers(v, nil) {
-			if c.K == 'a' {
+			if c.K == 'a' && len(c.Elems) <= 24 {
 				members = append(members, c.Elems...)
 			}
 		}
 	}
-	if len(members) > 80 {
-		members = members[:80]
+	if len(members) > 120 {
+		members = members[:120]
 	}
 	for i := 0; i < len(members); i++ {
 		for j := i + 1; j < len(members); j++ {
@@ -779,6 +784,14 @@ func statusVsDocuments(s Session, r *sessRun, i int, pre *simos.FS) *Violation {
 		}
 		if !uniqueKeyed(a, keys) || !uniqueKeyed(b, keys) {
 			return nil // duplicate identities: not the documented use of -setkeys
+		}
+	}
+	if f.setkeys != "" && len(keys) == 0 {
+		for _, k := range strings.Split(f.setkeys, ",") {
+			keys = append(keys, strings.TrimSpace(k))
+		}
+		if !uniqueKeyed(a, keys) || !uniqueKeyed(b, keys) {
+			return nil
 		}
 	}
 	stats.probe("status-judged-against-documents")
